@@ -1,13 +1,18 @@
-(* MODEL of the client write path of src/Socket/Server.cpp (POSIX build), decision by decision:
-     Server::Private::ClientImpl::write / read / suspend / resume      (Server.cpp:431-506)
-     the write-readiness branch and the dispatch rule of Private::run  (Server.cpp:321-352)
-     the closing-clients pass of Private::run                          (Server.cpp:264-272)
-     Private::remove(ClientImpl&) / deleteClient                        (Server.cpp:200-213)
-     Socket::send's mapping of EAGAIN to "error 0"                      (Socket.cpp:433-449)
-     Socket::Poll::Private::{mapEvents,unmapEvents,set,remove} (linux)  (Socket.cpp:1179-1247)
+(* MODEL of the client write path of src/Socket/Server.cpp (POSIX build), decision by decision, as the
+   code is after the repair fixes/C13/01 (commit "fix: Server: a client that is readable and writable
+   gets its send backlog flushed"):
+     Server::Private::ClientImpl::write / read / suspend / resume
+     the client part of the dispatch of Private::run: write part first (send backlog, drop the sent
+       prefix, on drain restore interest + onWrite + continue; failure: free, remove, onClosed,
+       continue; EWOULDBLOCK: sent = 0), then onRead when the event also carries readFlag
+     the closing-clients pass of Private::run
+     Private::remove(ClientImpl&) / deleteClient
+     Socket::send's mapping of EAGAIN to "error 0"                      (Socket.cpp Socket::send)
+     Socket::Poll::Private::{mapEvents,unmapEvents,set,remove} (linux)  (Socket.cpp, epoll variant)
    One client.  The operating system is an input: every send call is answered by the [outcome]
    carried by the operation, every poll event by the [native] readiness carried by the
-   operation.  No proofs in this file. *)
+   operation.  [dispatch_unrepaired] is the dispatch rule before the repair (only used to state the
+   defect as a theorem).  No proofs in this file. *)
 From Coq Require Import ZArith List Bool.
 From ServerWrite Require Import ServerWriteSpec.
 Import ListNotations.
